@@ -20,7 +20,11 @@ THEOREM_NAMES = ['run_fuel_mono', 'run_fuel_mono_false', 'word_munch', 'expandTa
                  'stmtTextT_reaction_plain', 'stmtTextT_kernel', 'stmtTextB_kernel_spaced', 'dl_domain_tabs_rt', 'sl_domain_tabs_rt',
                  'comp_domain_tabs_rt', 'kernel_tabs_rt',
                  # parse soundness (accepted text is a layout of its tree): general rejection theorems
-                 'kernel_brackets_balanced', 'unbalanced_kernel_rejected', 'missing_assign_rejected', 'dl_value_wellformed']
+                 'kernel_brackets_balanced', 'unbalanced_kernel_rejected', 'missing_assign_rejected', 'dl_value_wellformed',
+                 # blanks / tabs at EVERY token boundary: one summary theorem per statement kind
+                 'dl_layout', 'sl_layout', 'strand_layout', 'state_layout', 'kernel_layout', 'complex_layout', 'struct_layout',
+                 'rx_plain_layout', 'rx_info_layout', 'strand_blanks', 'state_blanks', 'kernel_blanks', 'complex_blanks', 'struct_blanks',
+                 'rx_plain_blanks', 'rx_info_blanks']
 THEOREMS = ['Dsd.C13.' + t for t in THEOREM_NAMES] + ['Dsd.PP.Tabs.expandTabs_tok', 'Dsd.PP.Tabs.expandTabs_sep', 'Dsd.PP.Tabs.expand_template', 'Dsd.PP.run_yield', 'Dsd.PP.parseDoc_yield']
 ASSUMPTIONS = [
     'pyparsing 3.3.2 is modelled by a hand-written interpreter (Model/Pyparsing.lean: whitespace/comment skipping, Word maximal munch, '
@@ -55,8 +59,13 @@ MANIFEST = {
             'expandTabs_tok / expandTabs_sep / expand_template (Python expandtabs turns every blank/tab separator into at least as many '
             'blanks), document_tabs_rt and the stmtTextT_* instances: every blank position of the statement theorems may hold any '
             'mixture of blanks and tabs, including between the words of a kernel pattern (kernel lemmas generalised to several '
-            'blanks). Blanks / tabs at the remaining token boundaries (between the domains of a strand, around "+" and "->", inside '
-            'info boxes and concentrations). REJECTIONS in general form, from PARSE SOUNDNESS (run_yield / parseDoc_yield: whatever the '
+            'blanks). EVERY TOKEN BOUNDARY: one summary theorem per statement kind - dl_layout, sl_layout, strand_layout, state_layout, '
+            'kernel_layout (with concentration), complex_layout, struct_layout, rx_plain_layout, rx_info_layout: for every assignment '
+            'of blank/tab separators to the boundaries of the kind\'s template (non-empty exactly where the grammar needs a separator: '
+            'after the keyword, between two names, before "->"), the rendered text is a statement text for the tree; numbers in '
+            'integer, decimal and scientific form, optional error terms, any number of unit factors; the restrictions are shown by '
+            'kernel-checked examples (no blank inside combined tokens, blank required before "->", a blank after a dot-bracket joins '
+            'its token). REJECTIONS in general form, from PARSE SOUNDNESS (run_yield / parseDoc_yield: whatever the '
             'parser model accepts, the consumed input is ignorable text and matched terminals in grammar order): '
             'kernel_brackets_balanced (in any accepted comment-free document the text of every kernel statement has balanced '
             'parentheses), unbalanced_kernel_rejected (name = pattern with unbalanced parentheses, any pattern text over the pattern '
